@@ -264,6 +264,7 @@ def _cut(ip, node, st, lc, seq, n):
                 names.add(e.id)
         frame.vars[idx_name] = 0
         frame.vars['_n'] = n
+        names.add(idx_name)
     for label, g in (lc.ghost_init or {}).items():
         frame.vars[label] = ip.spec_value(g, st)
         names.add(label)
@@ -325,7 +326,8 @@ def _cut(ip, node, st, lc, seq, n):
             if isinstance(v, SList) and v.oid == oid and k in lc.types:
                 shp = lc.types[k]
                 nm = k
-        havoc_list(ip, l, nm, shp)
+        from .contract import ListOf as _ListOf
+        havoc_list(ip, l, nm, shp.elem if isinstance(shp, _ListOf) else shp)
     for src in lc.havoc:
         raise EngineError('explicit havoc entries not implemented')
 
@@ -379,6 +381,17 @@ def _cut(ip, node, st, lc, seq, n):
                         f2.vars[idx_name] = mm.arith(ctx, '+', f2.vars[idx_name], 1)
                     for label, upd in (lc.ghost_update or {}).items():
                         s2.frame.vars[label] = ip.spec_value(upd, s2)
+                    for label, src in lc.lemmas_end:
+                        ctx.reveal_depth += 1
+                        try:
+                            f = ip.spec_bool(src, s2)
+                        finally:
+                            ctx.reveal_depth -= 1
+                        o = ctx.oblige(s2, f'{tag}#lemma:{label}', 'lemma', lc.role, f, node.lineno, note=src)
+                        if o is not None:
+                            o.qf_only = True
+                        s2.assume(f)
+                        s2.assume(ip.spec_bool(src, s2))
                     for label, src in lc.invariants:
                         f = ip.spec_bool(src, s2)
                         ctx.oblige(s2, f'{tag}#inv-preserve:{label}', 'inv-preserve', lc.role, f, node.lineno,
